@@ -58,9 +58,12 @@ def run(rep, tier):
         ('ERR-must-raise', 'every generated error function raises on all paths'),
         ('ERR-shape', 'error functions raise ParseError(message, pos, line, col)'),
         ('EXC-classes', 'exception constructors match the raise sites'),
+        ('FREE-name', 'every name the error path reads exists in the module that runs it (no NameError instead of ParseError)'),
+        ('SUBIMPORT-complete', 'sub-grammars import every runtime name emitted code mentions'),
     ]:
         rep.rule(rid, txt)
-    found, stats, nmods = routes.run(rep, 'C08', ['ENTRY-', 'CONV-hashable', 'ERR-must-raise', 'ERR-shape'])
+    found, stats, nmods = routes.run(rep, 'C08', ['ENTRY-', 'CONV-hashable', 'ERR-must-raise', 'ERR-shape', 'FREE-name',
+                                                   'SUBIMPORT-'])
     rep.floor('entry points examined', stats['entries'], 150)
     rep.floor('error functions examined', stats['error_functions'], 100)
     call_const = load.call_constant()
